@@ -125,6 +125,23 @@ def _kinematics(ctx, body, t, q, u, u_dot, B, label, has_q=True):
     calls.append((f"{label}.r_OP[offset]", lambda B__: body.r_OP(t_, q, B_r_CP=B__), (np.array(B, dtype=float),), {}))
     calls.append((f"{label}.v_P[offset]", lambda B__: body.v_P(t_, q, u, B_r_CP=B__), (np.array(B, dtype=float),), {}))
     representation_check(ctx, calls, mon="EQ:representation", scalars=True)
+    # a system reports the kinetic energy of ALL its bodies
+    from cardillo import System as _Sys
+    from cardillo.discrete import PointMass as _PM
+    with gen.quiet():
+        S_ = _Sys()
+        import copy as _copy
+        b_ = _copy.deepcopy(body); b_.name = "kin_body"
+        pm_ = _PM(1.7, q0=np.zeros(3), u0=np.zeros(3), name="kin_pm")
+        S_.add(b_, pm_)
+        S_.assemble(options=gen.no_cic_options())
+    qs_, us_ = np.array(S_.q0, dtype=float), np.zeros(S_.nu)
+    qs_[b_.my_qDOF], us_[b_.my_uDOF] = q, u
+    us_[pm_.my_uDOF] = np.array([0.3, -1.1, 0.7])
+    ctx.mon("EQ:E_kin")
+    Es_ = float(S_.E_kin(t, qs_, us_)); Mr_ = dense(S_.M(t, qs_))
+    if abs(Es_ - 0.5 * us_ @ Mr_ @ us_) > 1e-12 * (abs(Es_) + 0.5 * us_ @ Mr_ @ us_ + 1e-300):
+        ctx.violation("System.E_kin", "kinetic energy reported by the system differs from 1/2 u^T M u", {**ex, "E_kin": Es_, "ref": float(0.5 * us_ @ Mr_ @ us_)})
     if hasattr(body, "E_kin"):
         ctx.mon("EQ:E_kin")
         E = body.E_kin(t, q, u)
